@@ -959,28 +959,27 @@ fn partition(
     }
 
     // Paths with the same file identifier are normally hard links, i.e. different directory
-    // entries. If there are more of them than links to the file, some are the same entry seen
-    // through a symbolic link to a directory or through a bind mount, and dropping such a path
-    // would drop a retained file as well.
-    #[cfg(unix)]
+    // entries. But two paths can also be one and the same entry, seen through a symbolic link
+    // to a directory or through a bind mount: they have the same name in the same directory.
+    // Dropping such a path would drop a retained file as well.
+    let entry_id = |f: &PathAndMetadata| {
+        let parent = f.path.parent()?;
+        let parent_id = FileMetadata::new(parent).ok()?.file_id();
+        Some((parent_id, f.path.file_name()?))
+    };
+    let mut entry_counts = HashMap::new();
+    for f in to_retain
+        .iter()
+        .chain(to_drop.iter())
+        .flat_map(|g| &g.files)
     {
-        use std::os::unix::fs::MetadataExt;
-        let mut path_counts: HashMap<FileId, u64> = HashMap::new();
-        for f in to_retain
-            .iter()
-            .chain(to_drop.iter())
-            .flat_map(|g| &g.files)
-        {
-            if !is_link(f) {
-                *path_counts.entry(f.metadata.file_id()).or_default() += 1;
-            }
+        if !is_link(f) {
+            *entry_counts.entry(entry_id(f)).or_insert(0) += 1;
         }
-        let is_alias = |f: &PathAndMetadata| {
-            !is_link(f) && path_counts[&f.metadata.file_id()] > f.metadata.nlink()
-        };
-        while let Some(i) = to_drop.iter().position(|g| g.files.iter().any(is_alias)) {
-            to_retain.push(to_drop.remove(i));
-        }
+    }
+    let is_alias = |f: &PathAndMetadata| !is_link(f) && entry_counts[&entry_id(f)] > 1;
+    while let Some(i) = to_drop.iter().position(|g| g.files.iter().any(is_alias)) {
+        to_retain.push(to_drop.remove(i));
     }
 
     assert!(
